@@ -51,7 +51,7 @@ class Harness(cm.BaseA):
     assumptions = ["file names that merely contain '.gwl' (w.gwl.txt) are ambiguous in the statement and not in the alphabet; 'w.gwlx' (wrong extension) is"]
 
     def depth(self, tier):
-        return 3 if tier == "quick" else 4
+        return 3 if tier == "quick" else 5
 
     def bounds(self, tier):
         return {"depth": self.depth(tier), "names": NAMES, "initial_file_sizes": [None, 3, 5000]}
